@@ -170,6 +170,17 @@ def prop_history(ctx, case):
             cls.add('tid-filter')
         if 0 < len(exp_sel) < len(bases[fi]):
             cls.add('selective')
+    # final audit: after the whole history an unfiltered request on every dump still equals the fresh baseline
+    parser.filter_tid = parser.filter_process = None
+    parser.filter_class, parser.filter_subclass = [], []
+    for fi, (blob, evs, tm) in enumerate(built):
+        got = guard(lambda: [(t.ktraces[0].timestamp, t.ktraces[0].tid, str(t)) for t in parser.traces(BudgetReader(blob))])
+        exp = [(b['ts'], b['tid'], b['text']) for b in bases[fi]]
+        if got != exp:
+            raise Violation('residue-after-history', describe(f'unfiltered request on dump {fi} after the history', got, exp, None))
+        fresh_now = guard(lambda: [(t.ktraces[0].timestamp, t.ktraces[0].tid, str(t)) for t in fresh().traces(BudgetReader(blob))])
+        if fresh_now != exp:
+            raise Violation('residue-across-objects', describe(f'a FRESH parser on dump {fi} after the history (state kept outside the object)', fresh_now, exp, None))
     if any(f['dynamic'] for f in case['files']):
         cls.add('dynamic-file')
     ctx.note(None, nontrivial=repeated_under_class, classes=cls)
